@@ -24,31 +24,51 @@ let show_rep r =
     (match r.rpr_time with Some _ -> "yes" | None -> "no")
 
 (* an observed report: Badrep (key, detail) when it is not even a well-shaped status report *)
-type obsrep = { rep : rp_sreport; rpt : eid; time_in_bracket : bool; nblocks : int }
+type obsrep = { rep : rp_sreport; rpt : eid; time_in_bracket : bool; nblocks : int;
+                codec_differs : bool  (* the implementation's own decoder reads the report differently from the reference decoder *) }
 type 'a orbad = Good of 'a | Badrep of (string * string)
 
+(* The report's administrative record is decoded from its bytes by the MODEL's decoder
+   (Model.dec_admrec, AuxCbor.v): items, reason and the reference bundle ID come from there.  The
+   fields the harness decoded with the implementation's own decoder are compared with them. *)
 let rep_of_s (now : n) s : obsrep orbad =
   match lst s with
   | [Atom "badrep"; why] -> Badrep ("report.shape.undecodable", D_bundle.str_of_bytes (s_bytes why))
-  | [Atom "rep"; items; reason; flags; src; dst; rpt; life; rf; nbl] ->
-    let items = List.map (fun i -> match lst i with [a; q; b] -> (s_bool a, s_bool q, s_bool b) | _ -> raise (Bad "item")) (lst items) in
-    let asserted = List.filter (fun (_, (a, _, _)) -> a) (List.mapi (fun i x -> (i, x)) items) in
-    (* an item that is not asserted must not carry a time either *)
-    if List.length items <> 4 then Badrep ("report.shape.positions", "status information array does not have four items")
-    else if List.exists (fun (a, q, _) -> (not a) && q) items then Badrep ("report.shape.positions", "time on an item that is not asserted")
-    else (match asserted with
-        | [(pos, (_, req, inb))] ->
-          (match lst rf with
-           | [rs; rt; rq; isf; off; tot] ->
-             Good { rep = { rpr_pos = n_of_int pos; rpr_reason = s_n reason; rpr_flags = s_n flags; rpr_src = D_bundle.s_eid src;
-                          rpr_dst = D_bundle.s_eid dst; rpr_life = s_n life; sr_ref_src = D_bundle.s_eid rs; sr_ref_time = s_n rt;
-                          sr_ref_seq = s_n rq; sr_ref_frag = (if s_bool isf then Some (s_n off, s_n tot) else None);
-                          rpr_time = (if req then Some now else None) };
-                  rpt = D_bundle.s_eid rpt; time_in_bracket = inb; nblocks = s_int nbl }
-           | _ -> raise (Bad "refbundle"))
-        | l -> Badrep ("report.shape.positions", Printf.sprintf "%d status items asserted, not exactly one" (List.length l)))
+  | [Atom "rep"; items; reason; flags; src; dst; rpt; life; rf; nbl; payload; t0; t1] ->
+    (match dec_admrec (s_bytes payload) with
+     | Ok (sr, []) ->
+       let t0 = s_n t0 and t1 = s_n t1 in
+       let mitems = List.map (fun it -> (it.si_asserted, it.si_req, N.leb t0 it.si_time && N.leb it.si_time t1)) sr.sr_items in
+       let iitems = List.map (fun i -> match lst i with [a; q; b] -> (s_bool a, s_bool q, s_bool b) | _ -> raise (Bad "item")) (lst items) in
+       let iref = match lst rf with
+         | [rs; rt; rq; isf; off; tot] ->
+           { bid_src = D_bundle.s_eid rs; bid_time = s_n rt; bid_seq = s_n rq; bid_frag = s_bool isf; bid_off = s_n off; bid_total = s_n tot }
+         | _ -> raise (Bad "refbundle") in
+       let mref = sr.sr_ref in
+       (* a whole bundle's ID has no offset / length on the wire: the decoders leave them 0 *)
+       let same_ref = mref.bid_src = iref.bid_src && mref.bid_time = iref.bid_time && mref.bid_seq = iref.bid_seq && mref.bid_frag = iref.bid_frag
+                      && (not mref.bid_frag || (mref.bid_off = iref.bid_off && mref.bid_total = iref.bid_total)) in
+       let codec_differs = not same_ref || sr.sr_reason <> s_n reason
+                           || List.map (fun (a, q, b) -> (a, q, (not q) || b)) mitems <> List.map (fun (a, q, b) -> (a, q, (not q) || b)) iitems in
+       let items = mitems in
+       let asserted = List.filter (fun (_, (a, _, _)) -> a) (List.mapi (fun i x -> (i, x)) items) in
+       (* an item that is not asserted must not carry a time either *)
+       if List.length items <> 4 then Badrep ("report.shape.positions", "status information array does not have four items")
+       else if List.exists (fun (a, q, _) -> (not a) && q) items then Badrep ("report.shape.positions", "time on an item that is not asserted")
+       else (match asserted with
+           | [(pos, (_, req, inb))] ->
+             Good { rep = { rpr_pos = n_of_int pos; rpr_reason = sr.sr_reason; rpr_flags = s_n flags; rpr_src = D_bundle.s_eid src;
+                            rpr_dst = D_bundle.s_eid dst; rpr_life = s_n life; sr_ref_src = mref.bid_src; sr_ref_time = mref.bid_time;
+                            sr_ref_seq = mref.bid_seq; sr_ref_frag = (if mref.bid_frag then Some (mref.bid_off, mref.bid_total) else None);
+                            rpr_time = (if req then Some now else None) };
+                    rpt = D_bundle.s_eid rpt; time_in_bracket = inb; nblocks = s_int nbl; codec_differs }
+           | l -> Badrep ("report.shape.positions", Printf.sprintf "%d status items asserted, not exactly one" (List.length l)))
+     | Ok (_, _ :: _) -> Badrep ("report.shape.undecodable", "bytes left over after the status report in the report bundle's payload")
+     | _ -> Badrep ("report.shape.undecodable", "the report bundle's payload is not a status report administrative record (reference decoder): x"
+                                                 ^ hex_of_bytes (s_bytes payload)))
   | _ -> raise (Bad "rep")
 
+let uniq l = List.sort_uniq compare l
 let kind_name p = match int_of_n p with 0 -> "received" | 1 -> "forwarded" | 2 -> "delivered" | 3 -> "deleted" | _ -> "other"
 
 let key_of_code (c : n) (r : rp_sreport) = match int_of_n c with
@@ -79,7 +99,6 @@ let ev_tag = function
   | EvAllSendsFailed -> "all-sends-failed" | EvDelivered -> "delivered" | EvDeliverFailed -> "deliver-failed"
   | EvDeleted r -> "deleted-" ^ dec_of_n r | EvReleased -> "released" | EvContraindicated -> "contraindicated"
 
-let uniq l = List.sort_uniq compare l
 
 let same_rep (m : rp_sreport) (o : rp_sreport) =
   m.rpr_pos = o.rpr_pos && m.rpr_reason = o.rpr_reason && m.rpr_flags = o.rpr_flags && m.rpr_src = o.rpr_src && m.rpr_dst = o.rpr_dst
@@ -91,9 +110,17 @@ let compare_reps ~ordered (model : rp_sreport list) (obs : obsrep orbad list) : 
   let show l = String.concat " " (List.map show_rep l) in
   let canon l = if ordered then l else List.sort compare (List.map (fun r -> { r with rpr_time = (match r.rpr_time with Some _ -> Some N0 | None -> None) }) l) in
   let m = canon model and o = canon obs_ok in
-  if List.length obs_ok <> List.length obs then [Mismatch "an observed report is not a well-shaped status report"]
+  if List.exists (function Good o -> o.codec_differs | Badrep _ -> false) obs then
+    [Mismatch "a status report decodes differently with the implementation's decoder and with the model's"]
+  else if List.length obs_ok <> List.length obs then [Mismatch "an observed report is not a well-shaped status report"]
   else if List.length m = List.length o && List.for_all2 same_rep m o then []
   else [Mismatch (Printf.sprintf "reports: model {%s} impl {%s}" (show model) (show obs_ok))]
+
+(* evidence: reports about fragments (offset and total length on the wire), per kind *)
+let frag_tags ?(suffix = "") (obs : obsrep orbad list) =
+  uniq (List.filter_map (function
+      | Good { rep = { sr_ref_frag = Some (o, t); rpr_pos; _ }; _ } when o <> t && o <> N0 && t <> N0 -> Some ("fragment-report-" ^ kind_name rpr_pos ^ suffix)
+      | _ -> None) obs)
 
 let model_gone evs =
   List.exists (function EvDeleted _ -> true | _ -> false) evs
@@ -134,6 +161,7 @@ let step = function
       r := prop_checks env b facts obs @ !r;
       if !r = [] then
         [Ok_ (uniq (List.map ev_tag evs) @ [Printf.sprintf "reports=%d" (List.length obs); "case-" ^ D_bundle.str_of_bytes (s_bytes tag)]
+              @ frag_tags obs
               @ (if List.length obs = 0 && has b.b_pri.p_flags f_ADMIN then ["silent-admin"] else [])
               @ (if List.length obs = 0 && rp_has_endpoint env b.b_pri.p_rpt then ["silent-report-to-local"] else []))]
       else !r
@@ -162,7 +190,7 @@ let retry = function
       r := compare_reps ~ordered:false (rp_reports it1 @ rp_reports it2) obs @ !r;
       r := prop_checks env b facts obs @ !r;
       if !r = [] then [Ok_ (uniq (List.map ev_tag evs) @ ["retry"; (if s_bool load_ok then "retry-loaded" else "retry-expired-in-store");
-                                                       Printf.sprintf "reports=%d" (List.length obs)])]
+                                                       Printf.sprintf "reports=%d" (List.length obs)] @ frag_tags ~suffix:"-retry" obs)]
       else !r
     end
   | _ -> raise (Bad "retry case")
